@@ -15,7 +15,8 @@ package main
 //   upd <meaning> <key string hex> <ctrl><alt><super> <text ids|->   Update(vaxis.Key)
 //   rel | pkey <ids> | pend | set <ids>
 //   draw <w> <prompt ids|->                                    Draw into a window of width w
-//     impl: v=<ids> cur=<CursorPosition()>   /   draw: col=<cursor col>|hang|panic
+//   mask                                                       SetInvisibleChar("*")
+//     impl: v=<ids> cur=<CursorPosition()>   /   draw: col=<cursor col>|nocursor row=<cell per column: id, T = truncator, M = mask> | hang | panic
 
 import (
 	"fmt"
@@ -539,6 +540,32 @@ func (t *tiRun) do(op []string) (string, string, bool) {
 			} else {
 				res = "nocursor"
 			}
+			// the cells of the window's row after Draw
+			var cells []string
+			for _, cell := range vx.VerifC17Row(0, w) {
+				switch g := cell.Character.Grapheme; {
+				case g == "…":
+					cells = append(cells, "T")
+				case g == "*":
+					cells = append(cells, "M")
+				case atomMode:
+					cells = append(cells, atomIds(g))
+				default:
+					if i, ok := alphaId[g]; ok {
+						cells = append(cells, strconv.Itoa(i))
+					} else {
+						cells = append(cells, "?")
+					}
+				}
+			}
+			if len(cells) == 0 {
+				res += " row=-"
+			} else {
+				res += " row=" + strings.Join(cells, ",")
+			}
+		case "mask":
+			// password mode (cannot be switched off again)
+			t.m.SetInvisibleChar("*")
 		default:
 			ok = false
 		}
@@ -806,13 +833,21 @@ func run(r *hx.Run) error {
 						ops = append(ops, []string{"rel"})
 					}
 				case x == 17:
-					ops = append(ops, []string{"upd", "noop", "-", "-", idList([]int{gen.Pick(rng, []int{3, 6, 7})}), "ctext"})
+					if rng.Chance(1, 8) {
+						ops = append(ops, []string{"mask"})
+					} else {
+						ops = append(ops, []string{"upd", "noop", "-", "-", idList([]int{gen.Pick(rng, []int{3, 6, 7})}), "ctext"})
+					}
 				default:
 					p := "-"
 					if rng.Chance(1, 3) {
 						p = idList(randIds(3, true))
 					}
-					ops = append(ops, []string{"draw", strconv.Itoa(rng.Range(1, 12)), p})
+					wmaxd := 12
+					if rng.Chance(1, 3) {
+						wmaxd = 40 // wide enough for the line to fit (cells and cursor column are then judged)
+					}
+					ops = append(ops, []string{"draw", strconv.Itoa(rng.Range(1, wmaxd)), p})
 				}
 			}
 		}
@@ -990,6 +1025,8 @@ func run(r *hx.Run) error {
 					case x == 16:
 						if rng.Chance(1, 3) {
 							ops = append(ops, []string{"set", idList(randAtoms(8))})
+						} else if rng.Chance(1, 4) {
+							ops = append(ops, []string{"mask"})
 						} else {
 							ops = append(ops, []string{"rel"})
 						}
